@@ -127,7 +127,6 @@ template <class A> static std::string runEnc(const std::vector<std::string> &chu
         if (d1 > A::encLen(ch.size())) flags += " BAD-LEN";
         if (p.written(flags) != d1) flags += " BAD-DONE";
         out.append(reinterpret_cast<char *>(p.a.data()), std::min(d1, p.a.size()));
-        // exact-size heap buffer (for the address sanitizer)
     }
     Probe p(A::encFinalLen());
     const size_t d1 = A::efinal(&c1, reinterpret_cast<char *>(p.a.data()));
